@@ -209,6 +209,55 @@ Resolved = Union[FunctionInfo, ClassInfo, Module, Ext, Tuple[str, Module, str], 
 # ----------------------------------------------------------------------------- program
 
 
+def _push_down_new_bases(parsed) -> None:
+    """A new private class put between a class of the reference tree and its base ("pull up method": `class _RSASignatureAlgModel(JWSAlgModel)` now
+    holds sign / verify of RSAAlgModel and RSAPSSAlgModel): the methods and class attributes the reference tree knows on the subclass, and that the
+    subclass now inherits from the new base, are copied back into the subclass - attribute lookup finds exactly these on it.  Methods that call
+    super() stay where they are (their meaning depends on the class they stand in)."""
+    import copy
+    from .renames import reference
+    ref_f, ref_g = reference()
+    for name, _path, _src, tree, _is_pkg in parsed:
+        module = name.replace(PKG + ".", "", 1) if name != PKG else ""
+        classes = {c.name: c for c in tree.body if isinstance(c, ast.ClassDef)}
+        ref_classes = {q.split(":", 1)[1].split(".")[0] for q in list(ref_f) + list(ref_g) if q.startswith(module + ":") and "." in q.split(":", 1)[1]}
+        for C in classes.values():
+            if C.name not in ref_classes:
+                continue
+            chain: List[ast.ClassDef] = []
+
+            def walk(c: ast.ClassDef) -> None:
+                for b in c.bases:
+                    if isinstance(b, ast.Name) and b.id in classes and b.id not in ref_classes and classes[b.id] not in chain and classes[b.id] is not C:
+                        chain.append(classes[b.id])
+                        walk(classes[b.id])
+            walk(C)
+            if not chain:
+                continue
+            have = set()
+            for st in C.body:
+                if isinstance(st, (ast.FunctionDef, ast.AsyncFunctionDef)):
+                    have.add(st.name)
+                elif isinstance(st, ast.Assign):
+                    have |= {t_.id for t_ in st.targets if isinstance(t_, ast.Name)}
+                elif isinstance(st, ast.AnnAssign) and isinstance(st.target, ast.Name) and st.value is not None:
+                    have.add(st.target.id)
+            for B in chain:
+                for st in B.body:
+                    if isinstance(st, ast.FunctionDef) and st.name not in have and f"{module}:{C.name}.{st.name}" in ref_f \
+                            and not any(isinstance(x, ast.Name) and x.id == "super" for x in ast.walk(st)):
+                        C.body.append(copy.deepcopy(st))
+                        have.add(st.name)
+                    elif isinstance(st, ast.Assign) and len(st.targets) == 1 and isinstance(st.targets[0], ast.Name) and st.targets[0].id not in have \
+                            and f"{module}:{C.name}.{st.targets[0].id}" in ref_g:
+                        C.body.append(copy.deepcopy(st))
+                        have.add(st.targets[0].id)
+                    elif isinstance(st, ast.AnnAssign) and isinstance(st.target, ast.Name) and st.value is not None and st.target.id not in have \
+                            and f"{module}:{C.name}.{st.target.id}" in ref_g:
+                        C.body.append(copy.deepcopy(st))
+                        have.add(st.target.id)
+
+
 def _unalias_module_imports(parsed) -> None:
     """`from .. import util as _util` + `_util.to_bytes(x)` is `from ..util import to_bytes` + `to_bytes(x)`: a module of the package that is imported
     as an object and only ever used through attribute reads is replaced by direct imports of the names read (the rules and the call graph speak
@@ -418,6 +467,7 @@ class Program:
         _unalias_module_imports(parsed)
         _propagate_function_aliases(parsed)
         _expand_partials(parsed)
+        _push_down_new_bases(parsed)
         # method names defined in more than one class anywhere in the package cannot be resolved through `self` by the inliner
         counts: Dict[str, int] = {}
         for _n, _p, _s, tree, _k in parsed:
